@@ -137,6 +137,7 @@ def run(ck, fb):
     r17g(ck, fb)
     r17j(ck, fb)
     r17l(ck, fb)
+    r17m(ck, fb)
     ck.borrow('rules.c01', {'R01w': 'R17k'}, 'a session that expired stays expired across a restart or a snapshot install: the console refuses its token')
 
 
@@ -547,3 +548,53 @@ def r17l(ck, fb, R='R17l'):
         ck.require(b.name.startswith('rnacos::console::login_api::'), R, 'UserSession.roles-assigned-by:%s' % k, b.where(bb),
                    '%s assigns UserSession.roles after the login: the request is judged by roles the login did not grant (a session of a directory user whose '
                    'name equals a local record gets that record\'s roles)' % k, 'login handler')
+
+
+def r17m(ck, fb, R='R17m'):
+    ck.rule(R, 'the matcher sees the grants as they are written and the request as it was made: every PathResource put into a module / group table '
+               'takes path and method unchanged from the Resource::Path literal (or from the entry it copies), and on the way UserRole::match_url -> '
+               'GroupResource / ModuleResource::match_url -> PathResource::match_url the path and the method handed down are the caller\'s own. The role '
+               'tables (R17b-R17d) are evaluated from the literals under R17j\'s reading of the matcher; a normalisation on either side changes what '
+               'is granted without changing a table - trimming a trailing slash turns the page grant ("/", GET) of every role into ("", GET), and the '
+               'empty path is the stands-for-every-path entry: every logged-in role may GET every route')
+    P = 'rnacos::user::permission::'
+    n = 0
+    for nm in (P + 'ModuleResource::new', P + 'GroupResource::new'):
+        b = ck.body(nm, R)
+        if not b:
+            continue
+        for x in util.region(fb, b, 2):
+            for (i, j, st) in x.aggregates(r'permission::PathResource$'):
+                rv = st['rv']
+                for f in ('path', 'method'):
+                    if f not in rv.get('fields', []):
+                        continue
+                    n += 1
+                    d = cfg.strip_calls(x, cfg.describe_operand(x, rv['ops'][rv['fields'].index(f)]))
+                    ok = d['k'] in ('place', 'arg') and not (d['k'] == 'place' and d['root']['k'] == 'call' and
+                                                             cfg.strip_calls(x, d['root'])['k'] == 'call' and
+                                                             not re.search(r'Iterator>::next$|IntoIterator>::into_iter$', cfg.callee_name(cfg.strip_calls(x, d['root'])['term']) or ''))
+                    ck.require(ok, R, '%s:%s-as-written' % (nm.split('::')[-2], f), x.where(i),
+                               '%s stores a PathResource whose %s is computed (%s) instead of copied from the table literal: the grants the matcher '
+                               'works with are not the grants the tables state' % (nm.split('permission::')[-1], f, cfg.fmt_desc(d)), 'copied')
+    ck.floor(R, 'PathResource fields stored by the table builders', n, 4)
+    chain = [(P + 'UserRole::match_url', r'permission::(GroupResource|ModuleResource|PathResource)::match_url$'),
+             (P + 'GroupResource::match_url', r'permission::PathResource::match_url$'),
+             (P + 'ModuleResource::match_url', r'permission::PathResource::match_url$'),
+             (P + 'UserRole::match_url_by_roles', r'permission::UserRole::match_url$')]
+    m = 0
+    for (nm, pat) in chain:
+        b = ck.body(nm, R)
+        if not b:
+            continue
+        names = {b.local_name(l): l for l in range(1, b.argc + 1)}
+        for s0 in [s1 for x in util.region(fb, b, 1) for s1 in x.calls(pat)]:
+            x = s0.body
+            for (k, want) in ((1, 'path'), (2, 'method')):
+                m += 1
+                d = cfg.strip_calls(x, cfg.describe_operand(x, s0.args[k]))
+                ok = d['k'] == 'arg' and x.local_name(d['l']) == want or (x is not b and d['k'] in ('arg', 'place'))
+                ck.require(ok, R, '%s:hands-down-%s' % ('::'.join(nm.split('::')[-2:]), want), s0.where(),
+                           '%s judges a %s it has computed (%s), not the one of the request: grants are matched against something the tables were not '
+                           'written for' % ('::'.join(nm.split('::')[-2:]), want, cfg.fmt_desc(d)), 'the caller\'s own %s' % want)
+    ck.floor(R, 'path / method arguments handed down the matcher chain', m, 8)
